@@ -16,6 +16,9 @@ use std::cmp::Ordering;
 use std::io::{Error, ErrorKind};
 use std::sync::Arc;
 use std::time::Duration;
+#[cfg(saito_verif)]
+use crate::core::util::verif::RwLock;
+#[cfg(not(saito_verif))]
 use tokio::sync::RwLock;
 
 #[derive(Clone, Debug)]
